@@ -18,21 +18,33 @@ import fcorr
 import vlib
 
 META = {
-    "text": "Rocq theorems over the reals about a hand model of the fallback bodies in src/math.c: asinh/acosh/atanh equal the "
-            "ln definitions exactly on the middle ranges of their splits and within proved method-error bounds on the outer "
-            "ranges (continuity across the split points follows); log1p's compensation term is neutral in exact arithmetic; "
-            "the expm1 rational approximation is within 3e-17 (absolute) of exp x - 1 on [-1/2,1/2] (interval); atan2 is the "
-            "polar angle in (-pi,pi] in all quadrants and on all four half-axes up to the distance of the double constant "
-            "from pi; norm2/norm3/norm/norm_ = sqrt of the sum of squares for every length and stride (definedness: no zero "
-            "divisor on the executed path); polar/spherical conversions invert each other's radius/angles; sums, means, dots "
-            "equal their defining sums, copy/swap/fill/push/roll refine list operations touching only the addressed cells, "
-            "for all lengths, strides and offsets. Tie 1: bit-exact binary64 execution of the same terms vs the C fallback "
-            "build. Tie 2: sampled accuracy (mpmath) in both configurations and both widths. PARTIAL: floating-point "
-            "accuracy 'for all finite arguments' is established at the sampled points only.",
-    "note": "Trusted: Coq kernel/vm_compute with primitive floats; real-number axioms listed by Print Assumptions; the 'same "
-            "term, different NumOps instance' argument; the hand transcription coq/C11/MathDefs.v (validated bit for bit on the "
-            "generated cases only; libm replaced by fixed substitutes on both sides in that run); memcpy/memmove modelled as "
-            "read-all-then-write; mpmath as reference for the sampled accuracy; gcc -O2 -ffp-contract=off being IEEE per operation.",
+    "category": "proof",
+    "text": "Rocq theorems over the reals (Properties_C11.v, 31 theorems) about a hand model (coq/C11/MathDefs.v) of the fallback "
+            "bodies in src/math.c. PROVED for all real arguments: asinh/acosh/atanh equal the ln definitions (shown to be the "
+            "inverses of sinh/cosh/tanh) exactly on the middle ranges of their splits and within proved method-error bounds on "
+            "the outer ranges, giving one relative bound 2^-53 over the whole domain and hence across every split point; "
+            "log1p's compensation term is neutral in exact arithmetic; the expm1 rational approximation (coefficients as "
+            "rounded to binary64) is within 1e-18 absolute and 2^-53 relative of exp x - 1 on all of [-1/2,1/2] (interval + "
+            "a shape argument for the sliver at 0), divisor >= 1; atan2 is the polar angle in (-pi,pi] in all quadrants and on "
+            "all four half-axes up to |A_REAL_PI - pi| <= 2^-52, 0 at the origin; norm2/norm3/norm/norm_ = sqrt of the sum of "
+            "squares for every length and stride, with the scaled intermediates in [0,1] / [1,n] (the exact-arithmetic content "
+            "of 'no overflow/underflow'); cart2pol/pol2cart/cart2sph/sph2cart radius and inverse relations; definedness (no "
+            "division by zero, sqrt or log outside its domain on any executed path, via a poisoned real instance); sums, "
+            "means, dots equal their defining sums and copy/swap/fill/zero/push/roll (single and block forms) refine list "
+            "operations touching only the addressed cells, for all lengths, strides and offsets, out-of-bounds = error. "
+            "CHECKED BY CORRESPONDENCE ONLY: that the model is the C (tie 1: the same Gallina terms run on Coq's primitive "
+            "binary64 floats, bit for bit against the C fallback build on boundary-aimed and random cases, list helpers cell "
+            "by cell under ASan). PARTIAL: floating-point accuracy 'to within a small multiple of machine precision for all "
+            "finite arguments, in both configurations, float and double' is not proved - tie 2 measures it on samples against "
+            "mpmath (A_HAVE=0/1 x double/float, tolerance 4 eps); theorems standing for such a clause are named *_partial.",
+    "note": "Trusted: Coq kernel/vm_compute with primitive floats and Interval's reflexive checker; real-number axioms listed by "
+            "Print Assumptions; the 'same term, different NumOps instance' argument; the hand transcription coq/C11/MathDefs.v "
+            "(validated bit for bit on the generated cases only; libm log/exp/atan/sin/cos replaced by the same fixed substitute "
+            "functions on both sides in that run, so libm itself is outside every claim); the model is of the a_real=double "
+            "fallback build (float and libm-bound builds are covered by the sampled accuracy tie only); memcpy/memmove modelled "
+            "as read-all-then-write; size_t arithmetic (n*c, i+c) assumed not to wrap; mpmath as reference for the sampled "
+            "accuracy; gcc -O2 -ffp-contract=off being IEEE per operation. Rounding error of the float evaluation is measured, "
+            "not proved; signed zeros/inf/NaN behaviour is compared with the model but is outside the theorems.",
     "technique": "Rocq proof over R (lra/nra/field, Coquelicot, interval) + bit-exact primitive-float model vs C correspondence + sampled mpmath accuracy",
 }
 
@@ -615,15 +627,31 @@ def run(ctx):
         raise vlib.CheckError("model does not compile: %s\n%s" % (failed, "\n".join(outs.get(f, "")[-800:] for f in failed)))
 
     # ------------------------------------------------------------------ Tie 1: bit-exact
-    corpus = []
+    corpus, corpus_l = [], []
     cp = vlib.VERIF / "corpus" / "C11" / "cases.txt"
     if cp.exists():
+        def num(v):
+            return float.fromhex(v) if "0x" in v.lower() else float(v)
         for ln in cp.read_text().splitlines():
             t = ln.split()
-            if t and not ln.startswith("#") and t[0] in SCALAR:
-                corpus.append(scalar_case(t[0], [float.fromhex(v) if v not in ("nan", "inf", "-inf") else float(v) for v in t[1:]]))
+            if not t or ln.startswith("#"):
+                continue
+            if t[0] in SCALAR:
+                corpus.append(scalar_case(t[0], [num(v) for v in t[1:]]))
+            elif t[0] == "list":
+                parts = [q.split() for q in ln.split(None, 2)[2].split("|")]
+                parts += [[]] * (4 - len(parts))
+                lists = [[num(v) for v in q] for q in parts[2:4]]
+                if t[1] not in ("dot", "dot_", "pushf_", "pushb_", "rollf_", "rollb_"):
+                    lists = lists[:1]
+                corpus_l.append(mk_list_case(t[1], [int(v, 0) for v in parts[0]], [num(v) for v in parts[1]], lists))
+            else:
+                raise vlib.CheckError("corpus/C11/cases.txt: unknown case kind %r" % t[0])
+        for c in corpus_l:
+            if not case_in_bounds(c):
+                raise vlib.CheckError("corpus/C11/cases.txt: case out of bounds: %s" % c["line"])
     scal = corpus + gen_scalar(ctx, 60 if ctx.quick else 1500)
-    lst = gen_list(ctx, 40 if ctx.quick else 800)
+    lst = corpus_l + gen_list(ctx, 40 if ctx.quick else 800)
     cases = scal + lst
     ctx.log("tie 1: %d scalar + %d array cases" % (len(scal), len(lst)))
     c_out, crashes = run_c_cases(bx, cases)
@@ -663,7 +691,7 @@ def run(ctx):
             branches[b] = branches.get(b, 0) + 1
 
     # ------------------------------------------------------------------ Tie 2: accuracy in both configurations, both widths
-    pts = acc_points(ctx, 60 if ctx.quick else 1500)
+    pts = [(c["fn"], c["args"]) for c in corpus if in_domain(c["fn"], c["args"])] + acc_points(ctx, 60 if ctx.quick else 1500)
     # scalar cases on which the bit-exact tie broke are examined first (search oracle), with neighbours
     extra = []
     for i in mism:
